@@ -417,8 +417,10 @@ def r3(ctx, chk):
     # (b) keys
     KEY1, KEY2 = "self._settings.registry_key", "self.info['name']"
     nkeys = 0
+    from ..core.ctx import inline_simple_helpers
     for f in D.methods.values():
-        for n in iter_own_nodes(f.node):
+        # accessor / predicate helpers of one expression (`self._is_cached(self._x_cache)`) are read as the expression they return
+        for n in iter_own_nodes(inline_simple_helpers(ix, f)):
             if isinstance(n, ast.Subscript) and isinstance(n.value, ast.Attribute) and n.value.attr in caches:
                 nkeys += 1
                 chk.ob(rule + "b", "%s: %s first key is the settings hash" % (f.qual, ast.unparse(n)[:70]),
